@@ -19,7 +19,14 @@ def gen_ops(rng, infos):
         nb = savebuild.ceil_div(D, b4)
         k = rng.randrange(nb)
         r = rng.random()
-        if r < 0.5:
+        if r < 0.08:
+            # the bytes the level already holds, written again (restoring a backup, zero-filling a fresh region): the write must
+            # still leave every touched block verifying - also one whose hash was uninitialised
+            off = rng.pick([k * b4, k * b4, k * b4 + rng.randrange(b4), 0])
+            ln = rng.pick([1, b4, b4, 2 * b4, b4 + 3])
+            ops.append(('seek', pi, off, 0))
+            ops.append(('write', pi, bytes(info['data'][off:off + ln])))
+        elif r < 0.5:
             ln = rng.pick([0, 1, 2, b4 - 1, b4, b4 + 1, 2 * b4, 3 * b4 + 5, D, D + 7, rng.randint(0, min(D + 3, 4 * b4))])
             ops.append(('write', pi, rng.rbytes(ln)))
         elif r < 0.75:
@@ -112,7 +119,7 @@ class C18(Check):
     rule = ('C17 geometries (clean containers, incl. uninitialised blocks), opened read-write or read-only, with or without a '
             'CMAC scheme (NOR0 old/new, SIGN, SYS0, EXT0, 9DB0 SD/NAND with random keys and ids); histories of 1-8 '
             'write/seek/read/re-open operations on either partition: lengths 0, 1, block-1, block, block+1, several blocks, '
-            'whole level, past the end; offsets in block 0 and later blocks, unaligned, straddling, at the end; sequential '
+            'whole level, past the end, and re-writing the bytes a range already holds; offsets in block 0 and later blocks, unaligned, straddling, at the end; sequential '
             'writes without seeks; then: same-session read-back, re-open with a fresh reader, every block re-verified by the '
             'reference reader, header hash, CMAC, and the set of modified file positions; non-trivial = at least one effective write')
     trusted_base = [
